@@ -53,13 +53,14 @@ type pbfModel struct {
 	// roles: "consumer", "worker", "reader", "serializer"
 	errs []string
 
-	funcs   map[*types.Func]*FuncInfo      // every function declared with a body in the package
-	byDecl  map[*types.Func]*unit          // the unit that executes the body of a declared function
-	sites   map[*types.Func][]*pbfCallSite // static call sites (plain, go, defer) of declared functions
-	goCalls map[*ast.CallExpr]*goSite      // the call expression of every go statement
-	entry   *FuncInfo                      // cache of decodeEntry()
-	view    *pbfPkgView
-	opsMemo []*chanOp
+	funcs    map[*types.Func]*FuncInfo      // every function declared with a body in the package
+	byDecl   map[*types.Func]*unit          // the unit that executes the body of a declared function
+	sites    map[*types.Func][]*pbfCallSite // static call sites (plain, go, defer) of declared functions
+	goCalls  map[*ast.CallExpr]*goSite      // the call expression of every go statement
+	entry    *FuncInfo                      // cache of decodeEntry()
+	view     *pbfPkgView
+	opsMemo  []*chanOp
+	ctxUnits map[[2]*unit]*unit // per-caller copies of shared helper units (see pbfmodel_ctx.go)
 }
 
 // pbfPkgView is what the CFG helpers and the tracer need to know about one package: its declared functions,
@@ -72,6 +73,8 @@ type pbfPkgView struct {
 	cfgs   map[*ast.BlockStmt]*pbfCFG
 	goBody map[*types.Func]bool
 	pars   map[*ast.File]map[ast.Node]ast.Node
+	// current call-site context (see pbfmodel_ctx.go)
+	ctxCalls []*ast.CallExpr
 }
 
 var pbfViewCache = map[*packages.Package]*pbfPkgView{}
@@ -169,6 +172,7 @@ type unit struct {
 	// for roles reached from the spawner's own body: position of the call site in the spawner
 	initPos map[token.Pos]bool
 	goSite  *goSite // non-nil for goroutine bodies
+	orig    *unit   // non-nil for the per-call-site copy of a shared helper (see pbfmodel_ctx.go)
 }
 
 // pbfCallSite is one static call of a declared function.
@@ -391,7 +395,7 @@ func buildPBFModel(p *core.Program) *pbfModel {
 		switch {
 		case g.loopStmt != nil:
 			g.role = "worker"
-		case m.unitReaches(u, func(x *unit) bool { return m.unitCalls(x, "io", "ReadFull") }):
+		case m.unitReaches(u, func(x *unit) bool { return m.unitReadsInput(x) }):
 			g.role = "reader"
 		default:
 			g.role = "serializer"
@@ -933,6 +937,11 @@ type pbfOrigin struct {
 // defsOf lists every definition of a local variable or parameter o: for a local every assignment in its function,
 // for a parameter (or receiver) of a declared function the argument at every static call site.
 func (m *pbfModel) defsOf(o types.Object) []pbfOrigin {
+	return m.ctxDefs(m.defsOfAll(o)) // (narrowed to the current call-site context, if one is set)
+}
+
+// defsOfAll: defsOf regardless of any call-site context.
+func (m *pbfModel) defsOfAll(o types.Object) []pbfOrigin {
 	v, ok := o.(*types.Var)
 	if !ok || v.IsField() {
 		return nil
@@ -1111,8 +1120,9 @@ type chanOp struct {
 	u      *unit
 	sel    *ast.SelectStmt // enclosing select, if the op is a comm clause
 	clause *ast.CommClause
-	defer_ bool     // close that runs when a goroutine (or function) exits: inside a deferred call/closure, or in a helper that is only called that way
-	node   ast.Node // the send statement / receive expression / range statement / close call
+	defer_ bool            // close that runs when a goroutine (or function) exits: inside a deferred call/closure, or in a helper that is only called that way
+	node   ast.Node        // the send statement / receive expression / range statement / close call
+	ctx    []*ast.CallExpr // call site this operation is seen from, for an operation of a shared helper split per call site
 }
 
 // chanClass resolves a channel expression to the decoder field it belongs to: directly (`dec.F`, `dec.F[i]`),
@@ -1138,10 +1148,24 @@ func (m *pbfModel) classesOf(e ast.Expr, seen map[types.Object]bool) map[string]
 	switch x := e.(type) {
 	case *ast.SelectorExpr:
 		if f := fieldOf(m.info, x); f != nil {
+			// a channel kept in a field of a struct that holds what a closure would have captured
+			// (`w.in` with `w := &worker{in: input}`): the class of what the field was given
+			if base, bf := m.structLocalField(x); base != nil && namedPath(selRecv(m.info, x)) != namedPath(m.decoderT) {
+				if inits, ok := m.fieldInits(base, 0, bf, map[types.Object]bool{}, 0); ok && len(inits) > 0 {
+					for _, in := range inits {
+						add(m.classesOf(in, seen))
+					}
+					if len(out) > 0 {
+						break
+					}
+				}
+			}
 			out[m.classNameOf(x, f)] = true
 		}
 	case *ast.IndexExpr:
 		add(m.classesOf(x.X, seen))
+	case *ast.SliceExpr:
+		add(m.classesOf(x.X, seen)) // `dec.outputs[:n]`
 	case *ast.CallExpr:
 		// conversion to a directional channel type
 		if tv, ok := m.info.Types[x.Fun]; ok && tv.IsType() && len(x.Args) == 1 {
@@ -1154,7 +1178,7 @@ func (m *pbfModel) classesOf(e ast.Expr, seen map[types.Object]bool) map[string]
 		}
 		seen[o] = true
 		defer delete(seen, o)
-		for _, d := range m.defsOf(o) {
+		for _, d := range m.ctxDefs(m.defsOf(o)) {
 			switch d.kind {
 			case "assign", "arg", "range-value":
 				add(m.classesOf(d.e, seen))
@@ -1241,7 +1265,21 @@ func (m *pbfModel) isCtxDoneChan(e ast.Expr, seen map[types.Object]bool) (isDone
 func (m *pbfModel) isDecoderCtx(e ast.Expr, seen map[types.Object]bool) bool {
 	e = ast.Unparen(e)
 	if f := fieldOf(m.info, e); f != nil {
-		return f == m.ctxField
+		if f == m.ctxField {
+			return true
+		}
+		// a field of a struct that holds what a closure would have captured (`w.ctx` with `w := &worker{ctx: dec.ctx}`)
+		if base, bf := m.structLocalField(e); base != nil {
+			if inits, ok := m.fieldInits(base, 0, bf, map[types.Object]bool{}, 0); ok && len(inits) > 0 {
+				for _, in := range inits {
+					if !m.isDecoderCtx(in, seen) {
+						return false
+					}
+				}
+				return true
+			}
+		}
+		return false
 	}
 	id, ok := e.(*ast.Ident)
 	if !ok {
@@ -1372,6 +1410,18 @@ func (m *pbfModel) chanOps() []*chanOp {
 			return true
 		})
 	}
+	// operations on a channel parameter that different call sites bind differently: one operation per call site
+	var split []*chanOp
+	for _, op := range ops {
+		if len(op.class) > 0 && op.class[0] == '?' {
+			if per := m.ctxOps(op); len(per) > 0 {
+				split = append(split, per...)
+				continue
+			}
+		}
+		split = append(split, op)
+	}
+	ops = split
 	m.opsMemo = ops
 	return ops
 }
